@@ -148,8 +148,22 @@ def oracle_C02(an, check_c09=False):
         fl = ftl[a]
         # flags must not change while the line is in progress (C09: changes are made between lines)
         if any(an.op_of(li).startswith("flag") for li in range(max(0, a - 400), b)):
-            first_nb = None
-            # conservative: skip lines with a flag change anywhere near their life time
+            # flags changed near this line's life time: only the flag-independent part is judged —
+            # whatever was enabled when, a command whose handler runs must be named by the line:
+            # the name typed (the longest run of name characters behind AT) is a prefix of its name,
+            # or its name is a prefix of what was typed (implicit write)
+            tt = bytes(c for c in t if c != 13)
+            body = bytes((c - 32 if 97 <= c <= 122 else c) for c in tt[2:])
+            k = 0
+            while k < len(body) and body[k] in NAMECH:
+                k += 1
+            nm = body[:k]
+            for e in cmd_events_in(an, a, b):
+                c = e[2] if e[0] == "H" else e[2]
+                cn = up(an.scn.cmds[c].name)
+                if not (cn.startswith(nm) or nm.startswith(cn)):
+                    v.append("line %r ran a callback of command %d (%s), which the typed name %r does not name (flags were changed while the line was typed)" % (t, c, an.scn.cmds[c].name, nm))
+                    break
             continue
         cl = classify(an.scn, fl, t)
         evs = cmd_events_in(an, a, b)
@@ -207,13 +221,46 @@ def oracle_C09(an):
     ftl = flags_timeline(an)
     for li in range(len(an.lines)):
         for e in an.ev[li]:
-            if e[0] == "H" and e[3] == "c":
-                c = e[2]
+            if (e[0] == "H" and e[3] == "c") or (e[0] == "V" and e[5] == "c"):
+                c = e[2] if e[0] == "H" else e[1]
                 if 0 <= c < len(an.scn.cmds) and not ftl[li].enabled(an.scn, c):
                     # allowed only if the flag changed while the command was already in progress
                     if not any(an.op_of(lj).startswith("flag") for lj in range(max(0, li - 3000), li)):
                         r.append("handler of disabled command %d ran at call %s" % (c, an.lines[li].op))
+                    else:
+                        why = disabled_before_selection(an, ftl, li, c)
+                        if why:
+                            r.append("handler of command %d ran at call %s although %s" % (c, an.lines[li].op, why))
     return r
+
+
+def disabled_before_selection(an, ftl, li, c):
+    """command c is disabled at trace index li (a handler of it runs there).  It was disabled before
+    the line could select it when, at the last moment it was still enabled, the bytes consumed of
+    the current line held no name terminator ('=' or '?'; for an implicit-write command: nothing
+    behind the AT prefix), the line's LF came later, and it has stayed disabled since."""
+    ld = None
+    for lj in range(li, -1, -1):
+        if ftl[lj].enabled(an.scn, c):
+            ld = lj
+            break
+    lfs = [idx for (idx, b) in an.reads if b == 10 and idx <= li]
+    if not lfs:
+        return None
+    lf_cur = lfs[-1]
+    lf_prev = lfs[-2] if len(lfs) > 1 else -1
+    if ld is None:
+        ld = -1
+    if ld >= lf_cur:
+        return None          # disabled after the line's LF: the command was already selected
+    seen = bytes(b for (idx, b) in an.reads if lf_prev < idx <= ld and b != 13)
+    # reads of the call ld itself precede the flag operation, which is a later operation
+    if an.scn.cmds[c].implicit:
+        if len(seen) > 2:
+            return None
+    elif b"=" in seen or b"?" in seen:
+        return None
+    return "it was disabled before the line named it (consumed so far: %r) and stayed disabled" % (seen,)
 
 
 # ---------------------------------------------------------------------------------------
@@ -886,6 +933,8 @@ def oracle_C14(an):
     cstart = {}
     for u in an.codes():
         cstart.setdefault(u.start, []).append(u)
+    waited = 0
+    bound = 2 * (an.scn.buf + max(an.scn.uns, 0)) + 100
     for li, l in enumerate(an.lines):
         t = an.op_of(li).split()
         op = t[0]
@@ -931,7 +980,16 @@ def oracle_C14(an):
                     v.append("released with %s but result code is %r" % ("OK" if req else "ERROR", bytes(u.payload)))
                 held = False
         if held and req is not None:
+            if not released:
+                waited = 0
             released = True
+            # promptness: once release has been requested, the result code starts as soon as the
+            # output is free: at most one unsolicited unit (at most the unsolicited region plus line
+            # breaks) may be in the way, whatever else the unsolicited machine has to do
+            if an.is_svc(li) and not lockfail and not any(e[0] == "W" and not e[2] for e in an.ev[li]):
+                waited += 1
+                if waited == bound:
+                    v.append("release requested but no result code started within %d further service calls with the output accepting every byte (last call %s)" % (bound, l.op))
         if li > 0 and not an.is_svc(li) and l.q[1] != an.lines[li - 1].q[1]:
             v.append("cat_is_hold changed from %d to %d across the non-service operation %r (op %s)" % (an.lines[li - 1].q[1], l.q[1], an.op_of(li), l.op))
         # the flag: HOLD while held and not yet released
